@@ -19,7 +19,7 @@ LIB = ["iv_avl", "iv_event", "iv_fatal", "iv_task", "iv_timer", "iv_tls", "iv_wo
        "iv_event_raw_posix", "iv_fd", "iv_fd_poll", "iv_fd_epoll", "iv_fd_pump",
        "iv_main_posix", "iv_popen", "iv_signal", "iv_thread_posix", "iv_tid_posix",
        "iv_time_posix", "iv_wait", "iv_inotify"]
-HARNESS = ["plan", "gen", "genx", "genx2", "genx3", "engine", "ext", "ext2", "ext3", "main"]
+HARNESS = ["plan", "gen", "genx", "genx2", "genx3", "genx4", "engine", "ext", "ext2", "ext3", "ext4", "main"]
 SAN = {
     "asan": ["-fsanitize=address,undefined", "-fno-sanitize=null,alignment,object-size",
              "-fno-sanitize-recover=all", "-fno-omit-frame-pointer"],
